@@ -211,7 +211,15 @@ func c20Merge(c *core.Ctx, leaves []amtLeaf) {
 			xo, ok1 := om.Of(x)
 			yo, ok2 := om.Of(call.Args[0])
 			if ok1 && ok2 && xo.Root == res && yo.Root == op && xo.Path == lo.Path && yo.Path == lo.Path {
-				if why := everyIteration(p, info, fd.Decl.Body, as, nilTestOnly(info)); why != "" {
+				search := func(l ast.Stmt) bool {
+					rs, ok := l.(*ast.RangeStmt)
+					if !ok {
+						return false
+					}
+					o, ok := om.Of(rs.X)
+					return ok && o.Root == res
+				}
+				if why := everyIterationOf(p, info, fd.Decl.Body, as, nilTestOnly(info), false, search); why != "" {
 					c.Ob("C20-R2", "tax.Total."+lo.Path+"#every-row", as.Pos(), false, "the addition of "+lo.Path+" is skipped for some rows: "+why)
 					return true
 				}
